@@ -1,10 +1,20 @@
 #!/bin/sh
-# apply every stored behaviour-preserving refactoring to /repo, run all quick checks, undo.
-# any VIOLATION is a false alarm; ANALYSIS-ERROR means an anchor was lost (fail-closed).
+# every stored behaviour-preserving refactoring: scratch worktree of /repo HEAD with the patch (PMV_REPO), all quick
+# checks, worktree removed.  /repo itself is never touched.  Any VIOLATION is a false alarm; ANALYSIS-ERROR means
+# a construct was not understood (fail-closed).   usage: tools/refactor_all.sh [id ...]
 cd "$(dirname "$0")/.."
-for d in seeded/refactors/*/; do
-  id=$(basename "$d")
-  python3 tools/seed_eval.py "$id" "$d" --refactor --skip-verify 2>&1 | grep -E "^\{|FAIL|ANALYSIS" | cut -c1-260
-  # seed_eval writes to seeded/<id>: merge meta back
+ids="$*"
+[ -z "$ids" ] && ids=$(ls seeded/refactors)
+one() {
+  id=$1; d=seeded/refactors/$id
+  SEED_JOBS=6 python3 tools/seed_eval.py "$id" "$d" --refactor --skip-verify 2>&1 | grep -E "^\{|FAIL|ANALYSIS" | cut -c1-260
   if [ -d "seeded/$id" ]; then cp "seeded/$id/meta.json" "$d/meta.json"; rm -rf "seeded/$id"; fi
+}
+n=0
+for id in $ids; do
+  one "$id" > /tmp/refactor_$id.out 2>&1 &
+  n=$((n+1))
+  if [ $((n % 3)) -eq 0 ]; then wait; fi
 done
+wait
+for id in $ids; do cat /tmp/refactor_$id.out; rm -f /tmp/refactor_$id.out; done
